@@ -46,6 +46,8 @@ def run(ctx):
         vlib.run_harness(['checker', 'repair', 'out=' + tr, 'seed=%d' % sd, 'cases=%d' % (6000 if q else 30000)], timeout=3000)
         bad, evs = ctx.monitor_all('placement+checker', 'Repair', 'Repair.cfg', tr, 'repair_%d' % sd, timeout=6000)
         handle(ctx, bad, evs, 'repair_%d' % sd)
+        ctx.tally([e for e in evs if e.get('ev') == 'case'], lambda e: [e.get(k) for k in ('rules_mode', 'cfg', 'case', 'down_long', 'down_short', 'pending')],
+                  lambda e: e['has_op'])
         coverage(ctx)
         for k, v in evs[-1].items():
             if k != 'ev':
@@ -69,6 +71,18 @@ def run(ctx):
                 for e in evs[lo:b[2]]:
                     f.write(json.dumps(e) + '\n')
             ctx.report(b[1], None, one, None, None, 'loop_%d_case%d_%s' % (sd, b[0], b[1]))
+        starts = [e for e in evs if e.get('ev') == 'start']
+        resets = [e for e in evs if e.get('ev') == 'reset']
+        proposed = set(i for i, e in enumerate(evs) if e.get('ev') == 'propose')
+        firstprop = {}
+        cur = -1
+        for e in evs:
+            if e.get('ev') == 'reset':
+                cur = e['beh']
+            elif e.get('ev') == 'propose':
+                firstprop.setdefault(cur, e['desc'])
+        ctx.tally([dict(r, start=s['region']) for r, s in zip(resets, starts)], lambda e: [e.get(k) for k in ('rules_mode', 'joint', 'cfg', 'stores', 'rules', 'start')],
+                  lambda e: e['beh'] in firstprop)
         for k, v in evs[-1].items():
             if k != 'ev':
                 ctx.extra.setdefault('closed_loop', {})[k] = ctx.extra.get('closed_loop', {}).get(k, 0) + v
@@ -86,9 +100,10 @@ def run(ctx):
             with open(one, 'w') as f:
                 f.write(json.dumps({'ev': 'reset', 'beh': 0, 'mode': 'merge'}) + '\n' + json.dumps(evs[b[2] - 1]) + '\n')
             ctx.report(b[1], None, one, None, None, 'merge_%d_call%d_%s' % (sd, b[0], b[1]))
+        ctx.tally([e for e in evs if e.get('ev') == 'merge'], lambda e: [e.get(k) for k in ('cfg', 'regions', 'checked')], lambda e: e['has_op'])
         ctx.extra['merge_checker_calls'] = ctx.extra.get('merge_checker_calls', 0) + evs[-1]['checked']
         ctx.extra['merges_proposed'] = ctx.extra.get('merges_proposed', 0) + evs[-1]['merges_proposed']
-    return ctx.finish(level='exploration', rule='Repair.tla states the C10 clauses over (stores as the filters see them, region peers with down/pending lists, settings or rules + real fit, '
+    return ctx.finish(level='exploration', rule='evaluations = checker calls (repair cases + closed-loop cases + merge-checker calls); non-trivial = the checker proposed an operator, distinct by the whole recorded input. Repair.tla states the C10 clauses over (stores as the filters see them, region peers with down/pending lists, settings or rules + real fit, '
                            'proposed operator); seeded clusters of 4-9 stores in every state (down, offline, offline+down, tombstone, disconnected, busy, low space, '
                            'snapshots, pending peers, fresh; zone/host/disk/engine labels), regions of 1-5 peers (learners, long/short down peers, pending), '
                            'max-replicas 1-5, location labels and isolation levels, 1-2 placement rules with constraints, joint consensus on/off, are given '
